@@ -142,6 +142,8 @@ class ArgumentList:
         tmp = "".join(tmp)
         if do_strip:
             tmp = tmp.strip()
+        if len(tmp) > 256 * 1024:  # the same limit as for arguments looked up by position
+            raise MemoryLimitError("template argument too long: %s bytes" % len(tmp))
 
         self.named_args[n] = (do_strip, tmp)
         return tmp
